@@ -443,7 +443,7 @@ def execute(trace, ctx=None):
                         ek = [tuple(kd[c] for c in on) for kd, _ in mrows]
                         if sorted(jk, key=repr) != sorted(ek, key=repr):
                             raise Violation('join-keys', 'join rows %s, expected keys %s' % (jk, ek), k)
-                        if not partial and jk not in [sorted(jk, key=lambda t: tuple(t[on.index(c)] for c in perm)) for perm in itertools.permutations(on)]:
+                        if not partial and jk not in [sorted(jk, key=lambda t: tuple(t[on.index(c)] for c in perm)) for perm in (list(on), sorted(on))]:
                             raise Violation('not-sorted', 'join rows are not sorted by key: %s' % jk, k)
                         want = {tuple(kd[c] for c in on): vals for kd, vals in mrows}
                         for r, kt in zip(jrows, jk):
@@ -610,7 +610,7 @@ def execute(trace, ctx=None):
                     raise Violation('duplicate-rows', 'result has duplicate keys %s' % got_keys, k)
                 raise Violation('join-keys', 'rows for keys %s: unexpected %s, missing %s' % (got_keys, extra, miss), k)
             # sorted by key: either lexicographic order of the key columns is accepted
-            orders = [] if partial else [sorted(got_keys, key=lambda t: tuple(t[on.index(c)] for c in perm)) for perm in itertools.permutations(on)]
+            orders = [] if partial else [sorted(got_keys, key=lambda t: tuple(t[on.index(c)] for c in perm)) for perm in (list(on), sorted(on))]     # by the keys in their given order; the library's alphabetical column order is accepted too
             if not partial and got_keys not in orders:
                 raise Violation('not-sorted', 'rows are not sorted by key: %s' % got_keys, k)
             if len(jdefaults) and any(nm in jdefaults and v[0] == 'table' for nm, v in minputs.items()):
@@ -806,6 +806,6 @@ RULE = ('one case = one seeded multi-day history on one long-lived perdictable: 
         'distinct = distinct digest of (trace, observations)')
 ASSUMPTIONS = ['keys are unique inside each input table; an input, data and expiry table carry every key column',
                'expiry on today\'s date at or before the current time: both "kept" and "recomputed" are accepted (the two code paths differ and the statement says "in the past"); an expiry later than now must recompute',
-               'two key columns: either lexicographic row order is accepted',
+               'two key columns: rows sorted by the keys in their given order, or in alphabetical column order (what the library does), are accepted',
                'empty join: only "f is not called" is asserted',
                'calls in which every table input is outer-joined are not made with data/expiry keys outside the inputs\' keys (the statement is silent on whether those extend the key set)']
